@@ -194,7 +194,8 @@ CLAIMED = {
     "C16": {
         "text": "Coq theorems (props/C16.v) over the hand model of rendering (exact decimal rendering of the rational a float "
                 "denotes): correct half-even rounding, the relative error bound 0.5*10^(1-s) for s significant digits (division-"
-                "free form), specials / sign / percent, right-justification and column widths of to_string, HTML escaping "
+                "free form), the digit text denotes the rounded value (fixed-point layout), specials / sign / percent, "
+                "right-justification and column widths of to_string, HTML escaping "
                 "(no raw markup, unescape o escape = id). Tie: exact string equality of format_num, to_string and to_html with "
                 "the model (vm_compute) on thousands of floats incl. rounding boundaries and on random result objects; "
                 "round-trip bound also checked exactly in Q on the real output; views expose the same rows",
